@@ -383,9 +383,86 @@ func (p *Prog) Func(pkg, recv, name string) *ssa.Function {
 		p.Lookups[key] = true
 	}
 	if f := p.funcByName(pkg, recv, name); f != nil {
-		return f
+		return Forwarded(f)
 	}
-	return p.relocate(key, pkg, recv)
+	return Forwarded(p.relocate(key, pkg, recv))
+}
+
+// Forwarded follows pure forwarders: a function whose whole body hands its own
+// parameters, unchanged and in order, to one function of the same package and returns
+// what that returns (`func (t *T) M(a, b) R { return t.mImpl(a, b) }`) is analysed at the
+// function it forwards to — the split changes nothing a rule could depend on.
+func Forwarded(fn *ssa.Function) *ssa.Function {
+	for depth := 0; fn != nil && depth < 3; depth++ {
+		w := forwardTarget(fn)
+		if w == nil {
+			return fn
+		}
+		fn = w
+	}
+	return fn
+}
+
+func forwardTarget(fn *ssa.Function) *ssa.Function {
+	if fn == nil || fn.Blocks == nil || fn.Parent() != nil {
+		return nil
+	}
+	n := 0
+	for _, b := range fn.Blocks {
+		if b != fn.Recover {
+			n++
+		}
+	}
+	if n != 1 {
+		return nil
+	}
+	var call *ssa.Call
+	for _, in := range fn.Blocks[0].Instrs {
+		switch x := in.(type) {
+		case *ssa.Call:
+			if call != nil {
+				return nil
+			}
+			call = x
+		case *ssa.Extract:
+			if call == nil || x.Tuple != ssa.Value(call) {
+				return nil
+			}
+		case *ssa.Return:
+			if call == nil {
+				return nil
+			}
+			res := call.Call.Signature().Results()
+			if len(x.Results) != res.Len() {
+				return nil
+			}
+			for i, r := range x.Results {
+				if res.Len() == 1 {
+					if r != ssa.Value(call) {
+						return nil
+					}
+				} else if e, ok := r.(*ssa.Extract); !ok || e.Tuple != ssa.Value(call) || e.Index != i {
+					return nil
+				}
+			}
+		case *ssa.DebugRef:
+		default:
+			return nil
+		}
+	}
+	if call == nil || call.Call.IsInvoke() {
+		return nil
+	}
+	g := call.Call.StaticCallee()
+	if g == nil || g.Blocks == nil || g.Pkg != fn.Pkg || g == fn || g.Parent() != nil || len(call.Call.Args) != len(fn.Params) {
+		return nil
+	}
+	for i, a := range call.Call.Args {
+		if a != ssa.Value(fn.Params[i]) {
+			return nil
+		}
+	}
+	return g
 }
 
 // relocate finds a renamed unexported anchor by its fingerprint: same package, same
@@ -557,9 +634,9 @@ func (p *Prog) MethodOf(t *types.Named, name string) *ssa.Function {
 			sel := ms.At(i)
 			if sel.Obj().Name() == name {
 				if d := p.SSA.FuncValue(sel.Obj().(*types.Func)); d != nil {
-					return d
+					return Forwarded(d)
 				}
-				return p.SSA.MethodValue(sel)
+				return Forwarded(p.SSA.MethodValue(sel))
 			}
 		}
 	}
@@ -569,6 +646,10 @@ func (p *Prog) MethodOf(t *types.Named, name string) *ssa.Function {
 // Callers returns the static call sites of fn plus interface invokes that may dispatch
 // to it (CHA: same method name, receiver type implements the interface).
 func (p *Prog) Callers(fn *ssa.Function) []ssa.CallInstruction {
+	// the callers of a function that only a pure forwarder calls are the forwarder's
+	if cs := p.callers[fn]; len(cs) == 1 && cs[0].Parent() != nil && forwardTarget(cs[0].Parent()) == fn && cs[0].Parent() != fn {
+		return p.Callers(cs[0].Parent())
+	}
 	out := append([]ssa.CallInstruction{}, p.callers[fn]...)
 	if fn.Signature.Recv() != nil {
 		rt := fn.Signature.Recv().Type()
@@ -668,6 +749,7 @@ func FuncName(f *ssa.Function) string {
 	if f == nil {
 		return "<nil>"
 	}
+	f = Logical(f)
 	if f.Parent() != nil {
 		// closure: name by parent + ordinal
 		idx := 0
@@ -689,4 +771,18 @@ func FuncName(f *ssa.Function) string {
 		}
 	}
 	return pkg + "." + f.Name()
+}
+
+// Logical: the function a worker stands for — when fn's only caller is a pure forwarder
+// (see Forwarded), rule tables, frozen exceptions and obligation keys know it under the
+// forwarder's name.
+func Logical(fn *ssa.Function) *ssa.Function {
+	for depth := 0; fn != nil && Current != nil && fn.Parent() == nil && depth < 3; depth++ {
+		cs := Current.callers[fn]
+		if len(cs) != 1 || cs[0].Parent() == nil || cs[0].Parent() == fn || forwardTarget(cs[0].Parent()) != fn {
+			return fn
+		}
+		fn = cs[0].Parent()
+	}
+	return fn
 }
